@@ -367,3 +367,51 @@ try:
     body_r9(1, 1, 2)
 except Exception:
     pass
+
+
+U_HIST = (t.Union[t.List[int], t.List[str]], t.Union[t.Dict[str, int], t.Dict[str, str]], t.Union[t.Tuple[int, ...], t.Tuple[str, ...]])
+for _u in U_HIST:
+    make_converter(_u)
+
+
+@obligation(pre="0 <= ui <= 2 and 0 <= first <= 1", witnesses=(0,), timeout=200)
+def body_union_history(ui: int, first: int, i: int) -> int:
+    """round trips of two values of the same runtime type through ONE union type, one after the other (a per-type memo of the serialising member would show)"""
+    U = U_HIST[0] if ui == 0 else (U_HIST[1] if ui == 1 else U_HIST[2])
+    va = [i, 2] if ui == 0 else ({'k': i} if ui == 1 else [i, 2])
+    vb = ['s'] if ui == 0 else ({'k': 's'} if ui == 1 else ['s', 'u'])
+    order = (va, vb) if first == 0 else (vb, va)
+    for v in order:
+        r = roundtrip(U, v)
+        if r != 0:
+            return r if r > 0 else 2
+    return 0
+
+
+class R10(PaneBase, out_format='tuple', in_format=('tuple', 'struct')):
+    """tuple layout; a derived field (init=False, excluded) sits before another positional field of a different type"""
+    x: int
+    derived: str = field(init=False, exclude=True, default='d')
+    label: int = 0
+
+
+make_converter(R10)
+
+
+@obligation(pre="0 <= n <= 2 and 0 <= shape <= 1", witnesses=(0, -1), timeout=200)
+def body_r10(n: int, i: int, j: int, shape: int) -> int:
+    """R10: what the tuple layout writes reads back although an init=False/excluded field sits between the positional ones"""
+    if shape == 0:
+        v = [] if n == 0 else ([i] if n == 1 else [i, j])
+    else:
+        v = {'x': i} if n <= 1 else {'x': i, 'label': j}
+    return roundtrip(R10, v)
+
+
+try:
+    body_union_history(0, 0, 1)
+    body_union_history(1, 1, 1)
+    body_r10(2, 1, 2, 0)
+    body_r10(2, 1, 2, 1)
+except Exception:
+    pass
